@@ -31,7 +31,9 @@ for _nm, _spec, _cache in (("triads", "diatonic_triads", "_triads_cache"), ("sev
     _mod = "mingus.core.chords." + _cache
     CONTRACTS[C + _nm] = dict(
         params={"key": "str"}, returns="list[any]", result_is="%s(key)" % _spec,
-        ensures=[("fresh-rows-not-the-memo-table", "is_fresh(result)")],
+        ensures=[("fresh-rows-not-the-memo-table", "is_fresh(result)"),
+                 ("memo-table-invariant-re-established",
+                  "chord_cache_ok(module_value('mingus.core.chords.%s'), %s)" % (_cache, _nm == "sevenths"))],
         raises={"NoteFormatError": "not is_key(key)"},
         modifies=["module:" + _mod, "module:mingus.core.keys._key_cache"],
         split=[{"bind": {"key": k}, "module_state": {_mod: "{}"}} for k in KEYS30] +
